@@ -9,28 +9,34 @@ split: every node in exactly one part (the one of its key), re-joining the parts
 edges gives back the original; expand: every consumer is wired to the leaf the output map selects.
 """
 import collections
-import copy as _copy
 import glob
 import json
 
 from ekw import c11_lib as L
 
 PROPERTY = "C11"
-LEVEL_TEXT = ("Lean theorems over Model/Graph.lean (graph = topologically ordered node list + sinks, den = term over payloads by "
-              "recursion on the order, generic Transformer traversal + output lookup, _Copier, _Renamer, _DedupTransformer, Splitter, "
-              "Splicer/_Expander, _FuseTransformer): for every well-formed DAG of any size and any node/input/output names, copy and rename "
-              "return an isomorphic graph with identical sink terms, dedup keeps the set of sink terms, leaves no two nodes with equal "
-              "payload/outputs/inputs and is idempotent, split puts every node in exactly the part of its key and re-joining along the "
-              "cut edges restores the original, expand wires consumers to the leaf selected by the output map, fuse keeps sink values for "
-              "every callback satisfying FuseSound; plus the string lemma removeprefix vs lstrip-as-character-set. Tied to the real "
-              "transforms by a per-transformation correspondence check on random adversarially named DAGs.")
-LEVEL_NOTE = ("modelled, not verified: graph/{transform,visit,copy,rename,deduplicate,split,expand,fuse}.py; object identity is modelled by "
-              "indices into a node store, the traversal order is the one Transformer.transform produces (passed to the model as the node "
-              "order); payload equality, CutEdge hashing (cut names) and user callbacks (key, expander, fusion) are parameters")
+LEVEL_TEXT = ("Lean theorems over Model/Graph.lean (graph = topologically ordered node list + sinks; den = term over payloads, eval = value "
+              "under an interpretation of the payloads, both by recursion on the order; the generic Transformer traversal + output lookup; "
+              "_Copier, _Renamer, _DedupTransformer, Splitter/CutEdge, Splicer/_Subgraph/_Expander, _FuseTransformer), unbounded in graph size "
+              "and for all node/input/output names: copy and rename return the same structure (names mapped) with identical sink terms; dedup "
+              "keeps the set of sink terms, leaves no two nodes with equal payload/outputs/inputs and is idempotent; split gives every node "
+              "exactly one image, in the part of its key (reachability from the part's sinks), and re-joining by name along the reported cut "
+              "edges restores every node, the wiring, the sinks and all denotations; expand (whenever it returns) connects every consumer of an "
+              "expanded node to the default output of the prefixed copy of the sub-graph sink the output map selects and keeps leaves of "
+              "expanded sinks; fuse (whenever it returns) keeps every sink's value for every callback satisfying FuseSound, and the callback "
+              "used by the harness is proved sound; plus removeprefix vs lstrip-as-character-set with the decided witness main/mean. Tied to "
+              "the real transforms by a per-transformation correspondence check on random adversarially named DAGs and an independent "
+              "symbolic-interpreter oracle.")
+LEVEL_NOTE = ("modelled, not verified: graph/{nodes,graph,visit,transform,copy,rename,deduplicate,split,expand,fuse}.py. Object identity is "
+              "modelled by indices into a node store; the node order handed to the model is the order in which the real Transformer finishes "
+              "nodes (observed); payload equality, CutEdge hashing (cut names), and the user callbacks (key, expander, fusion) are parameters; "
+              "fusion callbacks are restricted to functions of the two nodes they are given that answer with a fresh node. Not proved (checked "
+              "by correspondence and oracle only): the wiring INSIDE a spliced sub-graph (mapped sources per input map), total correctness of "
+              "expand/fuse (the theorems are conditional on the transformation returning), custom Splitter.cut_edge / Splicer.splice_* overrides.")
 TECHNIQUE = "Lean 4 proof by induction over the topological order of the graph (simulation invariant of the generic Transformer fold) + differential correspondence with the real transforms + symbolic-interpreter oracle"
 LEAN_PROPS = ["EkwVerif.Props.C11"]
 LEAN_DRIVERS = ["C11"]
-RULE = ("random DAGs (1..8 nodes quick, ..14 thorough): shared sub-expressions, multi-output nodes, exact duplicates incl. permuted input "
+RULE = ("corpus of minimised past failures first, then random DAGs (1..9 nodes quick, ..14 thorough): shared sub-expressions, multi-output nodes, exact duplicates incl. permuted input "
         "order and near-duplicates, several sinks incl. non-terminal ones, adversarial names (prefixes/character overlap with parents, "
         "dots, digits, output names equal to Node attributes, input names equal to callback parameter names); one case = one "
         "transformation (copy, rename, dedup, split, expand, fuse) of one DAG with random parameters. non-trivial = the DAG has >= 3 nodes "
@@ -55,14 +61,9 @@ def _fail(kind, what):
     return {"kind": kind, "what": what}
 
 
-def _terms_of_ag(ag):
-    g, _ = L.build(ag)
-    return L.Sym().sinks(g)
-
-
 def real_copy(case):
     from earthkit.workflows.graph import copy_graph
-    g, objs = L.build(case["g"])
+    g, objs = _build_input(case["g"])
     before = L.Sym().sinks(g)
     try:
         c = copy_graph(g)
@@ -86,7 +87,7 @@ def _rename_fn(case):
 
 def real_rename(case):
     from earthkit.workflows.graph import rename_nodes
-    g, objs = L.build(case["g"])
+    g, objs = _build_input(case["g"])
     before = L.Sym().sinks(g)
     try:
         r = rename_nodes(_rename_fn(case), g)
@@ -96,6 +97,9 @@ def real_rename(case):
     fails = []
     if L.Sym().sinks(r) != before:
         fails.append(_fail("sink-terms-changed", "a sink of the renamed graph denotes a different term than the corresponding sink of the input"))
+    fn = _rename_fn(case)
+    if sorted(n["name"] for n in res["nodes"]) != sorted(fn(n["name"]) for n in case["g"]["nodes"]):
+        fails.append(_fail("rename-names", "the nodes of the result are not named func(name) for the nodes of the input"))
     return {"ok": res}, fails
 
 
@@ -105,7 +109,7 @@ def _dup_key(n):
 
 def real_dedup(case):
     from earthkit.workflows.graph import deduplicate_nodes
-    g, objs = L.build(case["g"])
+    g, objs = _build_input(case["g"])
     before = L.Sym().sinks(g)
     try:
         d = deduplicate_nodes(g)
@@ -145,7 +149,7 @@ def _key_fn(case):
 def real_split(case):
     from earthkit.workflows.graph import split_graph
     ag = case["g"]
-    g, objs = L.build(ag)
+    g, objs = _build_input(ag)
     key = _key_fn(case)
     try:
         parts, cuts = split_graph(key, g)
@@ -351,7 +355,7 @@ def real_expand(case):
     from earthkit.workflows.graph import expand_graph
     ag = case["g"]
     table = {nm: e for nm, e in case["exp"]}
-    g, objs = L.build(ag)
+    g, objs = _build_input(ag)
 
     def ex(n):
         e = table.get(n.name)
@@ -385,7 +389,9 @@ def real_expand(case):
             fails.append(_fail("sink-terms-changed", "the sinks of the expanded graph do not denote the sinks of the input with every "
                                "expanded node replaced by its sub-graph (leaf selected by the output map, sources connected per input map)"))
         names = [n["name"] for n in res["nodes"]]
-        if len(set(names)) == len(names):
+        spliced = {nm + "." + m["name"] for nm, e in table.items() for m in e["sub"]["nodes"]}
+        outer = {n["name"] for n in ag["nodes"]}
+        if len(set(names)) == len(names) and not (spliced & outer):     # nodes can be told apart by name
             byname = {n["name"]: n for n in res["nodes"]}
             for cname, k, pname, o in want[1]:
                 n = byname.get(cname)
@@ -459,7 +465,7 @@ def _fterm(n, memo, keep):
 def real_fuse(case):
     from earthkit.workflows.graph import fuse_nodes
     ag = case["g"]
-    g, objs = L.build(ag)
+    g, objs = _build_input(ag)
     before = L.Sym().sinks(g)
     cons = collections.Counter(j for n in ag["nodes"] for _, j, _ in n["inputs"])
     origin = {id(o): i for i, o in enumerate(objs)}
@@ -496,12 +502,67 @@ def real_fuse(case):
 REAL = {"fuse": real_fuse, "copy": real_copy, "rename": real_rename, "dedup": real_dedup, "split": real_split, "expand": real_expand}
 
 
+_VISITED = []
+
+
+def _install_recorder():
+    """Record the order in which Transformer.transform finishes nodes (module global `node_visit` of
+    graph/transform.py is wrapped; no hook in the repo). The model is given the nodes in that order."""
+    import earthkit.workflows.graph.transform as T
+    if getattr(T.node_visit, "_c11_recorder", False):
+        return
+    orig = T.node_visit
+
+    def node_visit(impl, node, inputs):
+        _VISITED.append(node)
+        return orig(impl, node, inputs)
+    node_visit._c11_recorder = True
+    T.node_visit = node_visit
+
+
 def run_case(case):
-    """Real code + oracle on one case. Never raises."""
+    """Real code + oracle on one case. Never raises. Adds out["order"] = observed visiting order of the
+    input graph's nodes (a permutation of range(n)) when the whole graph was visited."""
     try:
-        return REAL[case["t"]](case)
+        _install_recorder()
+        del _VISITED[:]
+        n = len(case["g"]["nodes"])
+        _BUILT.clear()
+        out, fails = REAL[case["t"]](case)
+        objs = _BUILT.get("objs")
+        if objs is not None:
+            idx = {id(o): i for i, o in enumerate(objs)}
+            order = []
+            for o in _VISITED:
+                i = idx.get(id(o))
+                if i is not None and i not in order:
+                    order.append(i)
+            if sorted(order) == list(range(n)):
+                out["order"] = order
+        del _VISITED[:]
+        return out, fails
     except Exception as e:   # harness trouble is reported as a failure of the case, not a crash
         return {"err": "harness:" + _exc(e)}, [_fail("harness-error", f"{_exc(e)}: {e}")]
+
+
+_BUILT = {}
+
+
+def _build_input(ag):
+    """Build the input graph of a case and remember its node objects (for the visiting order)."""
+    g, objs = L.build(ag)
+    _BUILT["objs"] = objs
+    return g, objs
+
+
+def permute_case(case, order):
+    """The same case with the nodes of the input graph listed in `order`."""
+    if order is None or order == list(range(len(order))):
+        return case
+    ag = case["g"]
+    pos = {old: new for new, old in enumerate(order)}
+    nodes = [dict(ag["nodes"][old], inputs=[[k, pos[j], o] for k, j, o in ag["nodes"][old]["inputs"]]) for old in order]
+    return dict(case, g={"nodes": nodes, "sinks": [pos[s] for s in ag["sinks"]]})
 
 
 # ----------------------------------------------------------------------------- classification / shrinking
@@ -528,7 +589,7 @@ def classify(case):
             omap = dict(map(tuple, e["omap"])) if e["omap"] is not None else {}
             for o in names[nm]["outputs"]:
                 ln = omap.get(o, o)
-                if ln and ln[0] in set(nm + "."):
+                if (nm + "." + ln).lstrip(nm + ".") != ln:      # where str.lstrip and str.removeprefix differ
                     return "lstrip"
         for s_ in ag["sinks"]:
             n = ag["nodes"][s_]
@@ -789,8 +850,8 @@ def _load_corpus():
 
 
 def correspond(ctx):
-    n = ctx.budget(1500, 40000)
-    nmax = ctx.budget(8, 14)
+    n = ctx.budget(6000, 60000)
+    nmax = ctx.budget(9, 14)
     cases = _load_corpus()
     for i in range(n):
         t = TRANSFORMS[i % len(TRANSFORMS)]
@@ -824,7 +885,7 @@ def correspond(ctx):
             _, f2 = run_case(small)
             what = next((x["what"] for x in f2 if x["kind"] == fl["kind"]), fl["what"])
             ctx.violation({"kind": fl["kind"], "t": case["t"], "cause": classify(small)}, small, f"{case['t']}: {what}")
-    mouts = model_outs(cases)
+    mouts = model_outs([permute_case(c, io.get("order")) for c, io in zip(cases, impl)])
     for case, io, mo in zip(cases, impl, mouts):
         ctx.traces += 1
         t = case["t"]
@@ -850,9 +911,13 @@ def search(ctx, why):
     for i in range(ctx.budget(3000, 20000)):
         t = TRANSFORMS[i % len(TRANSFORMS)]
         pool.append(gen_case(ctx.rng, t, ctx.budget(9, 14)))
+    shrunk = collections.Counter()
     for case in pool:
         _, fails = run_case(case)
         for fl in fails:
+            if shrunk[(case["t"], fl["kind"])] >= 4:
+                continue
+            shrunk[(case["t"], fl["kind"])] += 1
             small = shrink(case, fl["kind"])
             sig = {"kind": fl["kind"], "t": case["t"], "cause": classify(small)}
             s = json.dumps(sig, sort_keys=True)
